@@ -39,6 +39,9 @@ type Case struct {
 	BigBody  bool   `json:"big_body"` // request body padded above the 1 MiB inspection limit
 	Chunked  bool   `json:"chunked"`  // request body sent without Content-Length (Transfer-Encoding: chunked)
 	Twice    bool   `json:"twice"`    // the latest listing is registered twice back to back (two discovery passes)
+	// Gone: bitmask of endpoints that still count as healthy but refuse connections (the backend
+	// went away since the last health check): the engine has to fail over within the routable set
+	Gone int `json:"gone,omitempty"`
 }
 
 type rigT struct {
@@ -195,6 +198,21 @@ func runCase(c Case) []ev.Violation {
 		time.Sleep(40 * time.Millisecond)
 	}
 	_ = ctx
+	G := c.Gone & H
+	for i := 0; i < c.N; i++ {
+		if G&(1<<i) != 0 {
+			r.be[i].Down()
+		}
+	}
+	defer func() {
+		for i := 0; i < c.N; i++ {
+			if G&(1<<i) != 0 {
+				if err := r.be[i].Up(); err != nil {
+					panic("c09: backend did not come back: " + err.Error())
+				}
+			}
+		}
+	}()
 
 	var path, body string
 	switch c.Route {
@@ -252,9 +270,15 @@ func runCase(c Case) []ev.Violation {
 	if c.Twice {
 		rec.Class("history=listing-registered-twice")
 	}
+	if G != 0 {
+		rec.Class("healthy-endpoint-refuses-connections")
+		if G&L != 0 && H&L&^G != 0 {
+			rec.Class("fail-over-within-routable-set")
+		}
+	}
 	decision := resp.Header.Get("X-Olla-Routing-Decision")
-	desc := fmt.Sprintf("engine=%s strategy=%s fallback=%s refresh_on_miss=%v route=%s chunked=%v twice=%v; %d endpoints, healthy=%v, listing M=%v (earlier also %v), model registered as %q requested as %q -> status %d, decision header %q, served by %d (contacted %d), body %q",
-		c.Engine, c.Strategy, c.Fallback, c.Refresh, c.Route, c.Chunked, c.Twice, c.N, bits(H, c.N), bits(L, c.N), bits(P&^L, c.N), registered, requested, resp.StatusCode, decision, served, contacted, trunc(rb, 140))
+	desc := fmt.Sprintf("engine=%s strategy=%s fallback=%s refresh_on_miss=%v route=%s chunked=%v twice=%v; %d endpoints, healthy=%v (of these refusing connections: %v), listing M=%v (earlier also %v), model registered as %q requested as %q -> status %d, decision header %q, served by %d (contacted %d), body %q",
+		c.Engine, c.Strategy, c.Fallback, c.Refresh, c.Route, c.Chunked, c.Twice, c.N, bits(H, c.N), bits(G, c.N), bits(L, c.N), bits(P&^L, c.N), registered, requested, resp.StatusCode, decision, served, contacted, trunc(rb, 140))
 	cfgTag := c.Strategy + "/" + c.Fallback
 	ok2xx := resp.StatusCode >= 200 && resp.StatusCode < 300
 	fallbackAll := c.Fallback == "all" && c.Strategy != "strict"
@@ -293,7 +317,12 @@ func runCase(c Case) []ev.Violation {
 			}
 		}
 		// --- service direction (exact spelling only): the whole decision table
-		if c.Spelling == "exact" {
+		if c.Spelling == "exact" && G != 0 {
+			// some healthy endpoints refuse connections: only the fail-over clause is judged
+			if up := hl &^ G; up != 0 && (!ok2xx || served < 0 || up&(1<<served) == 0) {
+				bad("listed-healthy-reachable-but-not-served/"+cfgTag+"/"+c.Route, "%s", desc)
+			}
+		} else if c.Spelling == "exact" {
 			switch {
 			case hl != 0:
 				if !ok2xx || served < 0 || hl&(1<<served) == 0 {
@@ -373,6 +402,15 @@ func genCase(t *rapid.T) Case {
 	}
 	c.BigBody = rapid.IntRange(0, 9).Draw(t, "big") == 0
 	c.Chunked = rapid.IntRange(0, 3).Draw(t, "chunked") == 0
+	if rapid.IntRange(0, 3).Draw(t, "gone") == 0 {
+		c.Gone = rapid.IntRange(1, (1<<n)-1).Draw(t, "G")
+		if rapid.Bool().Draw(t, "routable") {
+			// the endpoints that went away are routable ones, and (if there is room) another routable one is left
+			extra := 1 << rapid.IntRange(0, n-1).Draw(t, "extra")
+			c.H |= c.Gone | extra
+			c.L |= c.Gone | extra
+		}
+	}
 	if rapid.IntRange(0, 2).Draw(t, "hist") == 0 {
 		c.Prev = rapid.IntRange(0, (1<<n)-1).Draw(t, "prev")
 		c.Twice = rapid.Bool().Draw(t, "twice")
@@ -401,7 +439,7 @@ func enumerate() {
 
 func TestC09(t *testing.T) {
 	defer stopRigs()
-	rec.SetRule("one production stack per (engine, strategy, fallback, refresh-on-miss); the table strategy x fallback x healthy-subset(4) x listing-subset(4) is enumerated completely with the exact spelling on the proxy route; rapid adds endpoint counts 1..4, model spellings (case, :latest, names listed in mixed case with a slash), the provider and Anthropic routes, request bodies above 1 MiB and bodies sent chunked (no Content-Length), and a discovery history in which an endpoint listed the model earlier and then dropped it (the new listing registered once, or twice back to back). The serving backend, client status and X-Olla-Routing-Decision header are judged. non-trivial = healthy set and listing set differ and both non-empty; distinct by full case")
+	rec.SetRule("one production stack per (engine, strategy, fallback, refresh-on-miss); the table strategy x fallback x healthy-subset(4) x listing-subset(4) is enumerated completely with the exact spelling on the proxy route; rapid adds endpoint counts 1..4, model spellings (case, :latest, names listed in mixed case with a slash), the provider and Anthropic routes, request bodies above 1 MiB and bodies sent chunked (no Content-Length), healthy endpoints that refuse connections (fail-over must stay inside the routable set), and a discovery history in which an endpoint listed the model earlier and then dropped it (the new listing registered once, or twice back to back). The serving backend, client status and X-Olla-Routing-Decision header are judged. non-trivial = healthy set and listing set differ and both non-empty; distinct by full case")
 	rec.Assume("safety direction is asserted for every spelling against the case's listing relation; the service direction (served / 404 / 503 / fallback to the healthy set) only for the exact lower-case spelling")
 	rec.Assume("discovery strategy with fallback 'all' and refresh-on-miss off: documentation is silent, either service by a healthy endpoint or an honest 404/503 rejection is accepted")
 	if ev.Replay(t, rec, "table", runCase) {
